@@ -192,6 +192,9 @@ func c03Facts(fs *Facts, s *c02Src) {
 	fs.Tri("tornDataIsEOF", td, w)
 	_, tr, w := c02OpensExistingForAppend(s)
 	fs.Tri("truncatesTornTail", tr, w)
+	t, w = c25FlushesAtCountBound(s)
+	fs.Tri("flushesAtCountBound", t, w)
+	c25ReaderAssumptions(fs, s)
 }
 
 func init() {
